@@ -29,18 +29,21 @@ CLAIMS = {
          "obligations that do not discharge are listed as undecided and are not counted; recursion depth over includes not yet bounded."),
  "C12": ("For every render entry point (Render, RenderFile, RenderString, RenderByte, RenderReader, layout, renderWithoutLayout, Vue.Render/RenderFragment/RenderNodes, renderNodesWithContext, render, renderNode(WithContext)): error without writer failure => nothing written; writer failure => non-nil error; nil error => no new writer failure. Writer failure at every offset is the universally quantified Write stub.",
          "assumes the destination writer is reachable only through explicit Write-capable arguments; evaluation (evaluate/preProcess/postProcess) is havocked; io.Copy/WriteTo/Write stubs assumed."),
+ "C13": ("The compiled-program cache of ExprEvaluator is sound: every cached program equals the compilation of its key with the evaluator's fixed options (object invariant), so getProgram returns the same program on a hit as on a miss for every cache state.",
+         "expr-lang Compile/Run are uninterpreted stubs; pipe composition, argument conversion (reflection) and uniform normalisation across positions are not under contract."),
  "C14": ("shouldIgnoreAttr == documented directive list; isLiteralAttr; renderAttrs == spec (brackets unwrapped, directives dropped, escaping applied once).",
          "binding evaluation (evalAttributes, class/style merge, v-show) not yet under contract."),
  "C18": ("OverlayFS.Open returns the file of the first non-nil layer that opens the name (recursive spec firstOpen, loop invariant), fs.ErrNotExist otherwise; nil layers never dereferenced; NewOverlayFS builds [upper]++lower in order.",
          "fs.FS.Open is a deterministic stub; ReadDir and Glob (sort, fs.DirEntry) are not under contract."),
+ "C15": ("loadCachedWithFrontMatter with the cache as an object invariant of Vue (every entry is the parse of its file at the entry's mtime): a successful load returns the parse for the file's current mtime, a file that cannot be stat-ed is an error, a failed load leaves the cache unchanged, the invariant is re-established on every path.",
+         "assumes (trusted contract of loadFragment) that a read returns the content belonging to the mtime a Stat reports at that moment, and equal non-zero mtime => equal content (the cache's documented assumption); Load/include paths that bypass the cache are not related to it by contract."),
+ "C16": ("In evaluate, whenever control reaches the v-pre/v-for/v-if dispatch for an element carrying v-once, its id is already recorded in the per-render seen set (assert-at clause); NewVueContext creates a fresh empty seen set; WithTemplate shares it along the include chain.",
+         "id assignment (distinct non-empty ids for every v-once element at every entry point) is not decided; skipping of already-seen elements is not stated as a clause."),
  "C17": ("Stack as a scope stack: Lookup = innermost binding else root field (recursive spec lookupIdx, loop invariant), Set touches only the top scope, Push/Pop restore the scope list, Pop keeps >= 1 scope, EnvMap agrees with Lookup, Copy is fresh and equal; object invariant len(pooled)==len(stack).",
          "path resolution through reflection (Resolve/resolveStep) is outside the subset: not claimed here; ResolveValue/PopulateStructFields are trusted stubs."),
 }
 NA = {
  "C09": "lock/ownership discipline obligations not built yet (no schedule exploration in this technique)",
- "C13": "pipe interpreter contracts not built yet",
- "C15": "cache freshness ghost (file-system epoch) not built yet",
- "C16": "v-once bookkeeping contracts not built yet",
  "C19": "formatter leaf contracts not built yet",
  "C20": "equivalence with an external reference renderer (goldmark) over all documents: no contract on a repository function can express the oracle (DESIGN.md §8)",
 }
